@@ -84,7 +84,7 @@ def recipes(ctx: Ctx):
     for ops in K.exhaustive_histories(depth):
         out.append((f"e{i}", {"ops": ops}))
         i += 1
-    n_random = 20000 if ctx.thorough else 1200
+    n_random = 14000 if ctx.thorough else 1200
     for _ in range(n_random):
         n = ctx.rng.randrange(2, 60 if ctx.thorough else 30)
         if ctx.rng.random() < 0.6:
